@@ -96,13 +96,16 @@ def gen_history(r):
             ops.append(hist.Step("event", raw=d, label="delete-by-author"))
             added.append(d)
         elif roll < 0.85:
-            tgt = r.choice(added)
-            key = next(k for k in keys if k.pk == tgt["pubkey"])
-            kind = tgt["kind"] if ref.kind_class(tgt["kind"]) in ("replaceable", "param") else r.choice([0, 10000, 30000])
-            ev = rnd_event(r, [key], 1000 + i, kind=kind)
-            if ev:
-                ops.append(hist.Step("event", raw=ev, label="replace"))
-                added.append(ev)
+            # a replacement that really supersedes a stored older version of the same address
+            key = r.choice(keys)
+            kind = r.choice([0, 3, 10000, 30000, 30000])
+            d = [["d", r.choice(["x", "", "y"])]] if kind == 30000 else []
+            extra = [[r.choice(NAMES[:6]), r.choice(VALUES[:14])] for _ in range(r.choice([1, 2, 4]))]
+            old = ref.make_event(key, kind=kind, created_at=NOW - 500 + i, tags=d + extra + [["r", "wss://one.example"]], content="old%d" % i)
+            new = ref.make_event(key, kind=kind, created_at=NOW - 400 + i, tags=d + [["t", "newer"]], content="new%d" % i)
+            ops.append(hist.Step("event", raw=old, label="add"))
+            ops.append(hist.Step("event", raw=new, label="replace"))
+            added += [old, new]
         elif roll < 0.93:
             ops.append(hist.Step("gc", arg=r.choice([NOW, NOW + 10 ** 7]), label="gc"))
         else:
@@ -218,14 +221,18 @@ async def run_history(ops, counters, inject, seed):
         def judge(i, st, prev, cur, logs):
             counters["ops"] = counters.get("ops", 0) + 1
             examine(cur, "quiescent", i)
-            if inject and i == inject["before_op"] - 1:
-                plan_.arm(inject["ordinal"], "error")
-            elif inject and i == inject["before_op"]:
-                counters["injected_errors_fired"] = counters.get("injected_errors_fired", 0) + plan_.fired
-                plan_.disarm()
+            for inj in injections:
+                if i == inj["before_op"]:
+                    counters["injected_errors_fired"] = counters.get("injected_errors_fired", 0) + plan_.fired
+                    plan_.disarm()
+            for inj in injections:
+                if i == inj["before_op"] - 1:
+                    plan_.arm(inj["ordinal"], "error")
 
-        if inject and inject["before_op"] == 0:
-            plan_.arm(inject["ordinal"], "error")
+        injections = inject if isinstance(inject, list) else ([inject] if inject else [])
+        for inj in injections:
+            if inj["before_op"] == 0:
+                plan_.arm(inj["ordinal"], "error")
         await hist.drive(rig, ops, judge, clock=clock)
         plan_.disarm()
         # burst: resubmit-free stream of fresh events without waiting, walking concurrently
@@ -278,9 +285,11 @@ def run_shard(spec):
         ops = gen_history(r)
         inject = None
         if i % 3 != 2:
-            removing = [j for j, o in enumerate(ops) if o.label in ("replace", "delete-by-author", "gc", "delete_event")]
-            target = r.choice(removing) if (removing and r.random() < 0.75) else r.randrange(len(ops))
-            inject = {"before_op": target, "ordinal": r.choice(list(range(0, 16)) + [18, 22, 30])}
+            removing = [j for j, o in enumerate(ops) if o.label in ("replace", "delete-by-author", "delete_event")]
+            targets = sorted(set(r.sample(removing, min(len(removing), 4)) + [r.randrange(len(ops))]))
+            # keep them apart (arming happens right after the previous operation)
+            targets = [t for k, t in enumerate(targets) if k == 0 or t - targets[k - 1] > 1]
+            inject = [{"before_op": t, "ordinal": r.choice(list(range(0, 20)) + [22, 26, 30])} for t in targets]
         histories.append((ops, inject, spec["case_seed"] * 100 + i))
     viols, nontrivial = R.run(run_many, histories, counters)
     seen, out = {}, []
@@ -294,7 +303,7 @@ def run_shard(spec):
         for o in ops:
             labels[o.label] = labels.get(o.label, 0) + 1
     return {"evaluations": sum(counters.get("walks", {}).values()), "nontrivial": sorted(set(nontrivial)), "counters": counters,
-            "coverage": {"operations": labels, "histories_with_injected_error": sum(1 for _, i, _ in histories if i)}, "violations": out,
+            "coverage": {"operations": labels, "histories_with_injected_error": sum(1 for _, i, _ in histories if i), "injections_planned": sum(len(i) for _, i, _ in histories if i)}, "violations": out,
             "samples": [{"ops": [(o.label, (o.raw or {}).get("kind") if isinstance(o.raw, dict) else o.arg) for o in histories[0][0][:15]], "inject": histories[0][1]}],
             "inconclusive": []}
 
